@@ -67,6 +67,8 @@ def silent_refs(rng, pool, docs):
     lines = ['silent %s %s' % (h, rng.choice([d, '-']))]
     for _ in range(rng.randrange(1, 4)):
         lines.append('addref objuid %s %s' % (o, h))
+    if rng.random() < 0.35:     # the UID stops being silent while it is referenced several times
+        lines.append('setid %s 0 %d 0' % (h, rng.choice([1, 2, 3, 7, 0x1001])))
     if rng.random() < 0.7:
         lines.append('add %s %s' % (d, o))
     if rng.random() < 0.7:
@@ -316,7 +318,8 @@ class C12(Base):
     @staticmethod
     def oracle(case, ops):
         out = []
-        for op, r, before, after in snaps_with_prev(upto_first_exn(ops)):
+        # C12 is stated for any sequence of public calls: a call that throws is one of them
+        for op, r, before, after in snaps_with_prev(ops):
             ms = oracle_sync(after)
             for m in ms:
                 t = op.split()
